@@ -196,6 +196,9 @@ func cmdVerify(args []string) {
 		}
 		x := w.newExec()
 		c := x.contractFor(f)
+		if os.Getenv("GVC_DUMPSSA") != "" {
+			f.WriteTo(os.Stderr)
+		}
 		t0 := time.Now()
 		res := x.VerifyFunction(f, c)
 		fmt.Printf("== %s: %d obligations (symbolic execution %.2fs)\n", name, len(res.Obligations), time.Since(t0).Seconds())
